@@ -125,6 +125,8 @@ func runC10(c *Ctx, r *Report) {
 	importFoundation(c, r, "C10", "platform-options")
 	r.Rule("C10/password-prompt-anchored", "the built-in pattern that decides when the login password is typed matches only where the prompt ends a line", 1)
 	checkPasswordPromptAnchored(c, r, "C10/password-prompt-anchored")
+	r.Rule("C10/patterns-compile", "every constant pattern the library compiles lazily is a valid expression (classifying an ssh client error line cannot panic)", 1)
+	checkPatternsCompile(c, r, "C10/patterns-compile", nil)
 	importFoundation(c, r, "C10", "transport-pipe")
 	importFoundation(c, r, "C10", "read-loop")
 	importFoundation(c, r, "C10", "queue")
